@@ -111,7 +111,7 @@ def verify (H : HashFn) (s : Sample) (row col : Nat) (dah : Dah) : Except SErr U
       | .col => (colRoot, row)
     if s.proof.start ≠ sel.2 then .error .verification
     else
-      match verifyRange H s.proof sel.1 [s.share.data] s.share.ns with
+      match luminaVerifyRange H s.proof sel.1 [s.share.data] s.share.ns with
       | .ok () => .ok ()
       | .error e => .error (.rangeProof e)
   | _, _ => .error .edsIndexOutOfRange
